@@ -35,6 +35,15 @@ class BufferCompleteError(Exception):
     pass
 
 
+class _SyntheticRequest:
+    # Stands in for a h2.events.RequestReceived event (which cannot
+    # be constructed without arguments in recent h2 releases) for
+    # the requests Hypercorn creates itself (h2c upgrade, push).
+    def __init__(self, stream_id: int, headers: List[Tuple[bytes, bytes]]) -> None:
+        self.stream_id = stream_id
+        self.headers = headers
+
+
 class StreamBuffer:
     def __init__(self, event_class: Type[IOEvent]) -> None:
         self.buffer = bytearray()
@@ -135,9 +144,7 @@ class H2Protocol:
             self.connection.initiate_connection()
         await self._flush()
         if headers is not None:
-            event = h2.events.RequestReceived()
-            event.stream_id = 1
-            event.headers = headers
+            event = _SyntheticRequest(1, headers)
             await self._create_stream(event)
             await self.streams[event.stream_id].handle(EndBody(stream_id=event.stream_id))
         self.task_group.spawn(self.send_task)
@@ -320,7 +327,9 @@ class H2Protocol:
             self.priority.block(event.stream_id)
         await self.has_data.set()
 
-    async def _create_stream(self, request: h2.events.RequestReceived) -> None:
+    async def _create_stream(
+        self, request: Union[h2.events.RequestReceived, _SyntheticRequest]
+    ) -> None:
         for name, value in request.headers:
             if name == b":method":
                 method = value.decode("ascii").upper()
@@ -392,9 +401,7 @@ class H2Protocol:
             # push on a push promises request.
             pass
         else:
-            event = h2.events.RequestReceived()
-            event.stream_id = push_stream_id
-            event.headers = request_headers
+            event = _SyntheticRequest(push_stream_id, request_headers)
             await self._create_stream(event)
             await self.streams[event.stream_id].handle(EndBody(stream_id=event.stream_id))
             self.keep_alive_requests += 1
